@@ -175,6 +175,9 @@ def main(prop):
     rep = common.Report(args)
     if args.replay:
         def judge(case, out):
+            if case.get("op") == "siblings":
+                import c06sib
+                return c06sib.judge(case, out)
             return "panic" in out or "died" in out
         return common.replay_generic(args, judge)
     timeout_s = {"quick": 300, "thorough": 1800}[args.tier]
@@ -232,6 +235,18 @@ def main(prop):
                     break
         except Exception as e:  # noqa
             rep.inconclusive.append("arity table: %s" % e)
+        # steps that select nothing (parent of the document, of an attribute, of a namespace node) must not panic
+        try:
+            import c06step
+            c06step.obligations(rep, rp, args.tier)
+        except Exception as e:  # noqa
+            rep.inconclusive.append("step totality: %s: %s" % (type(e).__name__, e))
+        # sibling navigation (dom XmlNode::next_sibling_child / previous_sibling_child), one step from any valid state
+        try:
+            import c06sib
+            c06sib.obligations(rep, rp, args.tier, args.jobs)
+        except Exception as e:  # noqa
+            rep.inconclusive.append("sibling navigation: %s: %s" % (type(e).__name__, e))
     jobs = [(prop, "free", L, timeout_s, args.seed) for L in free] + [(prop, "tpl:" + n, p, timeout_s, args.seed) for n, p in tpl]
     jobs.sort(key=lambda j: -(j[2] if isinstance(j[2], int) else 30))
     with mp.Pool(min(args.jobs, len(jobs))) as pool:
